@@ -44,6 +44,9 @@ def judge(d):
     scale = d["scale"]
     ntomo = (3 if d.get("three") else 2) if d["batch"] else 1
     imgs = [gen.smooth_noise(d["seed"] + t, ish, sigma=1.0) for t in range(ntomo)]
+    if d.get("idtype", "float32") != "float32":
+        # integer tomograms (MRC modes 0 / 1 / 6): the block sums do not fit the input dtype
+        imgs = [np.clip(np.round(im * 30.0) + (100 if d["idtype"] == "uint8" else 0), 0 if d["idtype"] == "uint8" else -120, 250 if d["idtype"] == "uint8" else 120).astype(d["idtype"]) for im in imgs]
     nm = len(d["mols"])
     bshape = tuple(s // b for s in ish)
     pos_px, rots, exact_ok = [], [], []
@@ -97,7 +100,9 @@ def judge(d):
         if d.get("preload") and nm:
             # the parent has been used before it is binned (cached state must not leak into the binned loader)
             loader.load(0, output_shape=n)
-        binned = loader.binning(b, compute=d["compute"])
+        # the bin size as a python int or as a numpy integer (e.g. read from a header)
+        b_arg = {"int": int, "np.int64": np.int64, "np.uint8": np.uint8}[d.get("btype", "int")](b)
+        binned = loader.binning(b_arg, compute=d["compute"])
         other = loader.binning(b, compute=not d["compute"])
     # parent untouched
     if not (np.array_equal(loader.molecules.pos, before_pos) and np.array_equal(loader.molecules.quaternion(), before_q)
@@ -171,7 +176,9 @@ def cases(draw):
     cls = draw(st.sampled_from(["grid", "grid", "free"]))
     mols = [{"k": [draw(st.integers(0, 30)) for _ in range(3)], "f": [round(draw(st.floats(0, 1)), 3) for _ in range(3)],
              "rot": draw(gen.rotvecs())} for _ in range(draw(st.integers(1, 4)))]
-    return {"b": b, "box": box, "ishape": ish, "chunks": chunks, "compute": draw(st.booleans()), "batch": draw(st.booleans()),
+    return {"idtype": draw(st.sampled_from(["float32", "float32", "float32", "int8", "uint8", "int16"])),
+            "btype": draw(st.sampled_from(["int", "int", "np.int64", "np.uint8"])),
+            "b": b, "box": box, "ishape": ish, "chunks": chunks, "compute": draw(st.booleans()), "batch": draw(st.booleans()),
             "scale": draw(gen.scales), "order": draw(st.sampled_from([0, 1, 3])), "cls": cls, "mols": mols, "seed": draw(gen.seeds),
             "preload": draw(st.booleans()), "three": draw(st.booleans()),
             "kinds": draw(st.lists(st.booleans(), min_size=3, max_size=3))}
